@@ -21,8 +21,7 @@ def run(ctx):
     else:
         cfg = "Range_quick.cfg" if ctx.tier == "quick" else "Range_thorough.cfg"
         ctx.tlc("sem", "Range", cfg, cases_path=cases, timeout_s=600,
-                workers=min(8, int(os.environ.get("VERIF_TLC_WORKERS") or 8)),
-                coverage=(ctx.tier == "thorough"))
+                workers=min(8, int(os.environ.get("VERIF_TLC_WORKERS") or 8)))
     h = ctx.build_harness("semh")
     res = ctx.run_harness(h, ["range"], cases, timeout_s=1500)
     ctx.tally(res, cases_path=cases)
